@@ -3,11 +3,11 @@ gv scen (replay on the real server, ND-JSON event trace) -> GldapTrace.tla (moni
 import json, random
 import vlib
 
-ENV = {"run", "stop", "dial", "close", "send", "release", "panic", "stopreading", "emfile"}
+ENV = {"run", "stop", "dial", "close", "send", "release", "panic", "stopreading", "emfile", "timeout"}
 
 BASE = {"Conns": '{"c1", "c2"}', "MaxReq": "2", "Stoppers": '{"s1"}', "FrameKinds": '{"op", "unbind", "bad"}', "DoneLast": "TRUE",
         "RegisterLocked": "TRUE", "CloseOnCtx": "TRUE", "WakeOnCancel": "TRUE", "HandlerRecover": "TRUE",
-        "ReadyOnlyIfListening": "TRUE", "ListenFails": "FALSE", "AcceptErrorsFatal": "FALSE", "TLSMode": '"none"'}
+        "ReadyOnlyIfListening": "TRUE", "ListenFails": "FALSE", "AcceptErrorsFatal": "FALSE", "TLSMode": '"none"', "ReadTimeout": "FALSE"}
 
 
 def cfg(consts, body):
@@ -61,6 +61,7 @@ def behaviours(run, consts, depth, allow_panic=False, extra_inv="", cap=None, mu
     c.setdefault("AllowStopReading", "FALSE")
     c.setdefault("AllowAcceptFault", "FALSE")
     c.setdefault("AllowSilent", "FALSE")
+    c.setdefault("AllowTimeout", "FALSE")
     body = "SPECIFICATION SSpec\nINVARIANTS Emit %s\nCHECK_DEADLOCK FALSE\n" % extra_inv
     res = run.tlc("Scen", cfg(c, body), workers=8, timeout=3000)
     if res.violations:
@@ -155,6 +156,7 @@ def scripted(run, scripts, consts):
     c.setdefault("AllowStopReading", "FALSE")
     c.setdefault("AllowAcceptFault", "FALSE")
     c.setdefault("AllowSilent", "FALSE")
+    c.setdefault("AllowTimeout", "FALSE")
     body = "SPECIFICATION ScriptSpec\nINVARIANTS EmitScript\nCHECK_DEADLOCK FALSE\n"
     res = run.tlc("ScenScript", cfg(c, body), env={"SCRIPT": sf}, workers=1, timeout=1800, heap="8g")
     best = {}
